@@ -155,3 +155,30 @@ Theorem C04_primeBits_ok :
   forallb (fun k => forallb (fun b => Bool.eqb (N.testbit (nth (N.to_nat k) primeBits 255) b) (is_prime (30 * k + nthb b))) (Nseq 8)) (Nseq 8) = true.
 Proof. exact primeBits_ok. Qed.
 Print Assumptions C04_primeBits_ok.
+
+(** ---- pre-sieve and cross-off together (the kernel as the code runs it: the array starts pre-sieved, only the primes
+    above 163 are sieving primes) *)
+From PS Require Import Model.KernelPs Proofs.KernelPsP.
+Theorem C04_presieve_bit_spec : forall low n, low mod 30 = 0 -> coprime30 n -> low + 7 <= n ->
+  (presieve_bit low n = true <-> prime n \/ (163 < n /\ nosmall n)).
+Proof. exact presieve_bit_spec. Qed.
+Print Assumptions C04_presieve_bit_spec.
+
+(** every configuration and interval: after each segment, "pre-sieved bit set and not crossed off" iff prime *)
+Theorem C04_erat_kernel_presieved : forall l1 maxKB start stop fuelg fuel l result,
+  16 <= maxKB -> maxKB <= 8192 -> 7 <= start -> start <= stop -> stop <= MAX64 ->
+  segments fuelg l1 maxKB start stop = Some l ->
+  sieve_loop fuel eratSmallSteps stop (map to_kseg l) (primes_between 164 (N.sqrt stop)) [] = Some result ->
+  Forall (fun r => k_low (fst r) mod 30 = 0 /\ seg_result_ok_g 164 r) result.
+Proof. exact erat_kernel_presieved. Qed.
+Print Assumptions C04_erat_kernel_presieved.
+Theorem C04_presieved_segment_spec : forall sg cleared, k_low sg mod 30 = 0 -> seg_result_ok_g 164 (sg, cleared) ->
+  forall n, coprime30 n -> k_low sg + 7 <= n -> byteof (k_low sg) n < k_size sg -> 7 <= n -> n <= k_high sg ->
+  (presieve_bit (k_low sg) n = true /\ ~ In (byteof (k_low sg) n, maskof n) cleared <-> prime n).
+Proof. exact presieved_segment_spec. Qed.
+Print Assumptions C04_presieved_segment_spec.
+Theorem C04_kernel_run_ps_example :
+  option_map (filter (fun n => 27000 <=? n)) (kernel_run_ps 10 400 32768 16 27000 29000 (primes_between 164 (N.sqrt 29000)))
+  = Some (primes_between 27000 29000).
+Proof. exact kernel_run_ps_small. Qed.
+Print Assumptions C04_kernel_run_ps_example.
